@@ -79,6 +79,21 @@ engine("C11", "Tick-log replay (real rebuild_state_from_ticks at every on_tick) 
 engine("C35", "StepStateChanged telemetry alternates per worker slot, PREPARING only at capacity, InputRequired published once.", "5/C35")
 
 
+SERVER_NOTE = ("Real WorkflowServer stack (ServerRuntimeDecorator > IdleReleaseDecorator > PersistenceDecorator > BasicRuntime) "
+               "assembled by the real WorkflowServer.__init__ on SqliteWorkflowStore under a virtual-time loop; starlette/uvicorn "
+               "are stubbed (HTTP layer not exercised); datetime.now of the server modules reads the virtual wall clock; a crash "
+               "is the process stopping right after the k-th append_tick; bounded scenario programs.")
+SERVER_TECH = "TLA+ server specs model-checked by TLC; crash/idle-release schedules replayed on the real server stack; TLC-evaluated observer"
+
+reg("C13", "model_checking",
+    "Restart at any persisted point. TLC checks Persistence.tla (tick log durable; tick buffer, mailbox, timers in memory; "
+    "persist-then-execute-commands; replay discarding commands) for all crash points of a staged pipeline: the intended design "
+    "satisfies 'no accepted work lost / finished run not re-run', the as-coded variant is shown to violate it. On the real "
+    "server EVERY persisted tick of several schedules is a crash point: new server on the same SQLite file, resume, run to the "
+    "end; TLC judges each case with Obs_C13 against the uninterrupted reference.",
+    SERVER_NOTE, SERVER_TECH, "5/C13")
+
+
 def build():
     props = [json.loads(l) for l in (ROOT / "properties.jsonl").read_text().splitlines() if l.strip()]
     checks, na = [], []
